@@ -409,3 +409,115 @@ Proof.
   cbn zeta. split; [|split; reflexivity].
   intros j v hi lo E. destruct j as [|[|[|j]]]; cbn in E; try discriminate; inversion E; subst; lia.
 Qed.
+
+(* ---------- the coefficient-decomposition construction ---------- *)
+Lemma largebit_spec c : (0 < c)%Z -> (0 < largebit c <= c /\ c - largebit c < largebit c)%Z.
+Proof.
+  intro H. unfold largebit. destruct (Z.ltb_spec c 1); [lia|].
+  pose proof (Z.log2_spec c H) as [L U]. rewrite Z.pow_succ_r in U by apply Z.log2_nonneg.
+  pose proof (Z.pow_pos_nonneg 2 (Z.log2 c) ltac:(lia) (Z.log2_nonneg c)). lia.
+Qed.
+Lemma tsum_rev a l : tsum a (rev l) = tsum a l.
+Proof. induction l as [|t r IH]; cbn [rev tsum]; [reflexivity|]. rewrite tsum_app. cbn [tsum]. lia. Qed.
+Lemma tsum_bubble a t rl : tsum a (bubble rl t) = (tc t * lit a (tv t) (ts t) + tsum a rl)%Z.
+Proof. induction rl as [|x r IH]; cbn [bubble tsum]; [lia|]. destruct (tc t >? tc x)%Z; cbn [tsum]; lia. Qed.
+Lemma tsum_insert a l t : tsum a (insert l t) = (tsum a l + tc t * lit a (tv t) (ts t))%Z.
+Proof.
+  unfold insert. destruct (Z.eqb_spec (tc t) 0) as [E|E]; [rewrite E; lia|].
+  rewrite tsum_rev, tsum_bubble, tsum_rev. lia.
+Qed.
+Lemma pos_rev l : pos_terms l -> pos_terms (rev l).
+Proof. unfold pos_terms. intro H. apply Forall_rev. exact H. Qed.
+Lemma pos_bubble t rl : (0 < tc t)%Z -> pos_terms rl -> pos_terms (bubble rl t).
+Proof.
+  intros Ht. induction 1 as [|x r Hx Hr IH]; cbn [bubble]; [constructor; [exact Ht|constructor]|].
+  destruct (tc t >? tc x)%Z; [constructor; [exact Hx|exact IH]|constructor; [exact Ht|constructor; assumption]].
+Qed.
+Lemma pos_insert l t : (0 <= tc t)%Z -> pos_terms l -> pos_terms (insert l t).
+Proof.
+  intros Ht P. unfold insert. destruct (Z.eqb_spec (tc t) 0); [exact P|].
+  apply pos_rev. apply pos_bubble; [lia|apply pos_rev; exact P].
+Qed.
+Lemma mu_app l r : mu_terms (l ++ r) = mu_terms l + mu_terms r.
+Proof. induction l as [|t l IH]; cbn [app mu_terms]; [reflexivity|]. rewrite IH. lia. Qed.
+Lemma mu_rev l : mu_terms (rev l) = mu_terms l.
+Proof. induction l as [|t r IH]; cbn [rev mu_terms]; [reflexivity|]. rewrite mu_app. cbn [mu_terms]. lia. Qed.
+Lemma mu_bubble t rl : mu_terms (bubble rl t) = bitsize (tc t) + mu_terms rl.
+Proof. induction rl as [|x r IH]; cbn [bubble mu_terms]; [lia|]. destruct (tc t >? tc x)%Z; cbn [mu_terms]; lia. Qed.
+Lemma mu_insert l t : mu_terms (insert l t) = (if (tc t =? 0)%Z then 0 else bitsize (tc t)) + mu_terms l.
+Proof.
+  unfold insert. destruct (tc t =? 0)%Z; [reflexivity|]. rewrite mu_rev, mu_bubble, mu_rev. reflexivity.
+Qed.
+Lemma bitsize_lt c c' : (0 < c)%Z -> (0 < c' < largebit c)%Z -> bitsize c' < bitsize c.
+Proof.
+  intros Hc [H0 H1]. unfold bitsize. unfold largebit in H1. destruct (Z.ltb_spec c 1); [lia|].
+  apply (Z.log2_lt_pow2 c' (Z.log2 c) H0) in H1.
+  pose proof (Z.log2_nonneg c'). lia.
+Qed.
+
+Lemma step_dec : forall d, Pd d -> bccond d = false ->
+  exists t r, fst d = t :: r /\ Pd (ifp_dec d) /\ Pd (elp_dec d) /\
+    (forall a, a (tv t) = true -> semb (ifp_dec d) a = semb d a) /\
+    (forall a, a (tv t) = false -> semb (elp_dec d) a = semb d a) /\
+    mu_dec (ifp_dec d) < mu_dec d /\ mu_dec (elp_dec d) < mu_dec d.
+Proof.
+  intros [l rhs] P B. destruct l as [|t r]; [rewrite bccond_nil in B; discriminate|].
+  exists t, r. unfold Pd, ifp_dec, elp_dec, mu_dec, semb in *. cbn [fst snd] in *.
+  inversion P as [|? ? Ht Pr]; subst.
+  destruct (largebit_spec (tc t) Ht) as [[L0 L1] L2].
+  set (t' := mkT (tv t) (ts t) (tc t - largebit (tc t))).
+  assert (Pi : pos_terms (insert r t')) by (apply pos_insert; [cbn; lia|exact Pr]).
+  assert (M : mu_terms (insert r t') < mu_terms (t :: r)).
+  { rewrite mu_insert. cbn [mu_terms tc t']. destruct (Z.eqb_spec (tc t - largebit (tc t)) 0).
+    - unfold bitsize. lia.
+    - pose proof (bitsize_lt (tc t) (tc t - largebit (tc t)) Ht ltac:(lia)). lia. }
+  split; [reflexivity|]. split; [exact Pi|]. split; [exact Pi|].
+  split; [|split; [|split; exact M]].
+  - intros a Ha. rewrite tsum_insert. cbn [tsum tc tv ts t']. rewrite (lit_true_s a _ _ Ha).
+    rewrite !Z.geb_leb. destruct (ts t).
+    + destruct (Z.leb_spec (rhs - largebit (tc t)) (tsum a r + (tc t - largebit (tc t)) * 1));
+        destruct (Z.leb_spec rhs (tc t * 1 + tsum a r)); try reflexivity; lia.
+    + destruct (Z.leb_spec rhs (tsum a r + (tc t - largebit (tc t)) * 0));
+        destruct (Z.leb_spec rhs (tc t * 0 + tsum a r)); try reflexivity; lia.
+  - intros a Ha. rewrite tsum_insert. cbn [tsum tc tv ts t']. rewrite (lit_false_s a _ _ Ha).
+    rewrite !Z.geb_leb. destruct (ts t).
+    + destruct (Z.leb_spec rhs (tsum a r + (tc t - largebit (tc t)) * 0));
+        destruct (Z.leb_spec rhs (tc t * 0 + tsum a r)); try reflexivity; lia.
+    + destruct (Z.leb_spec (rhs - largebit (tc t)) (tsum a r + (tc t - largebit (tc t)) * 1));
+        destruct (Z.leb_spec rhs (tc t * 1 + tsum a r)); try reflexivity; lia.
+Qed.
+
+(* (vii) the same guarantee for the coefficient-decomposition construction *)
+Theorem robdd_sem_dec : forall i m root m', mem_wf m -> pos_terms (il i) ->
+  getrobdd true i m = Some (root, m') -> robdd_post i m root m'.
+Proof.
+  intros i m root m' W P. unfold getrobdd.
+  destruct (construct ifp_dec elp_dec _ _ m []) as [[[id m1] mo]|] eqn:E; [|discriminate].
+  intros H; injection H as H1 H2; subst id m1.
+  destruct (construct_sound ifp_dec elp_dec mu_dec step_dec _ _ _ _ _ _ _ E W (memo_ok_nil m))
+    as (ex & Em & W' & V & _ & D).
+  { apply pos_sort. exact P. }
+  exists ex. split; [exact Em|]. split; [exact W'|]. split; [exact V|]. split.
+  - intros id a Vid. rewrite Em. apply den_old. exact Vid.
+  - intro a. rewrite D. apply semb_sorted.
+Qed.
+Theorem getrobdd_dec_total : forall i m, pos_terms (il i) -> exists r, getrobdd true i m = Some r.
+Proof.
+  intros i m P. unfold getrobdd.
+  destruct (construct_total ifp_dec elp_dec mu_dec step_dec (S (mu_dec (sort_desc (il i), ir i)))
+              (sort_desc (il i), ir i) m []) as [[[id m1] mo] E].
+  - lia.
+  - apply pos_sort. exact P.
+  - rewrite E. eexists; reflexivity.
+Qed.
+
+Theorem robdd_sem : forall dec i m root m', mem_wf m -> pos_terms (il i) ->
+  getrobdd dec i m = Some (root, m') -> robdd_post i m root m'.
+Proof. intros [|]; [apply robdd_sem_dec|apply robdd_sem_std]. Qed.
+Theorem getrobdd_total : forall dec i m, pos_terms (il i) -> exists r, getrobdd dec i m = Some r.
+Proof. intros [|]; [apply getrobdd_dec_total|apply getrobdd_std_total]. Qed.
+
+Example robdd_dec_ex :
+  getrobdd true (mkI [mkT "x" true 5; mkT "y" true 3] 6 GE) [] =
+    Some (5, [("y"%string, 1, 0); ("x"%string, 2, 0); ("y"%string, 1, 3); ("x"%string, 4, 0)]).
+Proof. reflexivity. Qed.
